@@ -13,6 +13,7 @@ pub mod c07;
 pub mod c08;
 pub mod c09;
 pub mod c10;
+pub mod c11;
 pub mod c14;
 pub mod c16;
 pub mod c17;
@@ -30,6 +31,7 @@ pub fn run(id: &str, tier: Tier) -> Option<CheckResult> {
         "C08" => Some(c08::run(tier)),
         "C09" => Some(c09::run(tier)),
         "C10" => Some(c10::run(tier)),
+        "C11" => Some(c11::run(tier)),
         "C14" => Some(c14::run(tier)),
         "C16" => Some(c16::run(tier)),
         "C17" => Some(c17::run(tier)),
@@ -50,6 +52,7 @@ pub fn replay(id: &str, case: &Value) -> Option<Vec<Violation>> {
         "C08" => Some(c08::replay(case)),
         "C09" => Some(c09::replay(case)),
         "C10" => Some(c10::replay(case)),
+        "C11" => Some(c11::replay(case)),
         "C14" => Some(c14::replay(case)),
         "C16" => Some(c16::replay(case)),
         "C17" => Some(c17::replay(case)),
